@@ -155,6 +155,19 @@ class Ctx:
         if len(self.samples) < 10 and p["cases"] <= 1:
             self.samples.append({"kind": "probe", "probe": probe, "input": jsonable(inp), "observed": jsonable(observed), "ok": bool(ok)})
 
+    def run_probe(self, name: str, fn, inp: Any, stratum: str = "", nontrivial: bool = True) -> Dict[str, Any]:
+        """fn(inp) -> {ok, observed, expected, predicate, fields}; exceptions of the probe itself are a
+        broken tie (harness could not evaluate the predicate), not a failing input."""
+        try:
+            r = fn(inp)
+        except Exception:
+            tb = traceback.format_exc()
+            self.obligation(f"probe {name} evaluated", False, tb[-1500:], kind="harness")
+            return {"ok": True, "error": tb}
+        self.probe_case(name, inp, r["ok"], fields=r.get("fields", {}), observed=r.get("observed"), expected=r.get("expected"),
+                        predicate=r.get("predicate", ""), nontrivial=nontrivial, stratum=stratum)
+        return r
+
     def _distinct(self, key):
         try:
             h = hashlib.sha1(json.dumps(jsonable(key), sort_keys=True, default=repr).encode()).hexdigest()
